@@ -7,7 +7,7 @@ written) — never by function name or line — and must
   * if it is a weak CAS, sit on a CFG cycle (R-CASKIND: a spurious failure must be retried, never interpreted).
 The rows restate /verif/tables/atomic_roles.json (the happens-before argument of each row is written there).
 """
-from vlib import atomics
+from vlib import atomics, pathwalk
 
 KRESULT = 18446744073709551615  # std::numeric_limits<uintptr_t>::max()
 KWRITER = 4294967296
@@ -289,4 +289,189 @@ def check_counter_reads(ctx, fb, r_order):
                            'reference-count read that guards moving the shared value out is %s; the other holders\' '
                            'reads (before their release decrement) must happen-before the move: needs acquire' %
                            atomics.ORDER_NAME[o], 'instantiation: ' + f.full[:200])
+    return n
+
+
+# ------------------------------------------------------------------------------------------------ R-CASFRESH
+
+class _FreshWalker(pathwalk.Walker):
+    """events: ('reload', var) the expected local got a fresh value (initial load / assignment / failed CAS),
+               ('test', var, other-operand text, truth), ('cas-call', var, loc)"""
+    loop_bound = 2
+    max_paths = 20000
+
+    def _var(self, fn, i):
+        n = fn.sn(i)
+        while n is not None and n['k'] in ('ImplicitCastExpr', 'CXXReinterpretCastExpr', 'CXXStaticCastExpr',
+                                           'ParenExpr', 'CStyleCastExpr') and n.get('ch'):
+            n = fn.sn(n['ch'][0])
+        return (self._depth, n['id']) if n is not None and n['k'] == 'DeclRefExpr' and 'id' in n else None
+
+    def on_node(self, fn, n, st):
+        self._depth = st.depth
+        k = n['k']
+        if k == 'DeclStmt':
+            for v in n.get('vars', ()):
+                if 'init' in v and v.get('id', -1) >= 0:
+                    st.events.append(('reload', (st.depth, v['id'])))
+        elif k == 'BinaryOperator' and n.get('op') == '=':
+            v = self._var(fn, n['ch'][0])
+            if v is not None:
+                st.events.append(('reload', v))
+        elif k == 'CXXMemberCallExpr' and n.get('cn', '').split('::')[-1] in ('compare_exchange_weak',
+                                                                                'compare_exchange_strong'):
+            v = self._var(fn, n['args'][0]) if n.get('args') else None
+            if v is not None:
+                st.events.append(('cas-call', v, fn.loc(n), n['i']))
+
+    def on_edge(self, fn, ci, taken, st):
+        self._depth = st.depth
+        c = fn.sn(ci)
+        neg = False
+        while c is not None and c['k'] == 'UnaryOperator' and c['op'] == '!':
+            neg = not neg
+            c = fn.sn(c['ch'][0])
+        if c is None:
+            return
+        truth = taken != neg
+        if c['k'] == 'CXXMemberCallExpr' and c.get('cn', '').split('::')[-1] in ('compare_exchange_weak',
+                                                                                  'compare_exchange_strong'):
+            v = self._var(fn, c['args'][0]) if c.get('args') else None
+            if v is not None and not truth:
+                st.events.append(('reload', v))  # a failed compare-exchange stores the current value into expected
+            return
+        if c['k'] == 'BinaryOperator' and c.get('op') in ('==', '!='):
+            for x, y in ((c['ch'][0], c['ch'][1]), (c['ch'][1], c['ch'][0])):
+                v = self._var(fn, x)
+                if v is not None:
+                    st.events.append(('test', v, fn.xtext(y), truth == (c['op'] == '==')))
+        elif c['k'] == 'DeclRefExpr' and 'id' in c:
+            st.events.append(('test', (st.depth, c['id']), 'nonzero', truth))
+        elif c['k'] == 'BinaryOperator' and c.get('op') in ('<', '>', '<=', '>=', '&'):
+            for x in c['ch']:
+                for d in fn.descendants(x):
+                    m = fn.nodes[d]
+                    if m['k'] == 'DeclRefExpr' and 'id' in m:
+                        st.events.append(('test', (st.depth, m['id']), fn.xtext(c['i']), truth))
+
+
+def check_cas_fresh(ctx, fb, rule, scope=None):
+    """R-CASFRESH (an internal-consistency rule, no table): in a compare-exchange retry loop the `expected` local is
+    refreshed by every failed attempt.  Whatever the code tested about the freshly loaded value before its FIRST
+    attempt (is it the result sentinel? the all-done marker? not-locked?) it must test again after every refresh
+    before the next attempt — otherwise the second attempt can replace a sentinel that the first attempt was careful
+    not to touch (a subscriber pushed on top of kResult is never run; a waiter added after all-done is never
+    released)."""
+    n = 0
+    for f in sorted(fb.fn.values(), key=lambda f: f.full):
+        if f.cfg is None or not f.qn.startswith('yaclib::') or '/fault/' in f.file or \
+                (scope is not None and not scope(f)):
+            continue
+        cas = [x for x in f.own_nodes() if x['k'] == 'CXXMemberCallExpr' and
+               x.get('cn', '').split('::')[-1] in ('compare_exchange_weak', 'compare_exchange_strong')]
+        if not cas:
+            continue
+        loops = f.cfg.loops()
+        if not any((f.cfg.pos_of(c['i']) or (None,))[0] in loops for c in cas):
+            continue  # no retry loop
+        try:
+            res = _FreshWalker(fb).run(f)
+        except pathwalk.TooManyPaths as e:
+            ctx.broken('R-CASFRESH %s: %s' % (f.full, e))
+        n += 1
+        key = 'R-CASFRESH %s' % f.qn
+        ctx.instance(rule, key + ' :: ' + f.full[:120], dict(function=f.full[:160], paths=len(res)))
+        done = False
+        for st, _ in res:
+            ev = st.events
+            first = {}
+            for i, e in enumerate(ev):
+                if e[0] != 'cas-call':
+                    continue
+                var = e[1]
+                j = max([k for k in range(i) if ev[k][0] == 'reload' and ev[k][1] == var] or [-1])
+                tests = {(x[2]) for x in ev[j + 1:i] if x[0] == 'test' and x[1] == var}
+                if (var, e[3]) not in first and var not in {k[0] for k in first}:
+                    first[(var, e[3])] = tests
+                    continue
+                base = [t for (v, _), t in first.items() if v == var][0]
+                missing = base - tests
+                if missing:
+                    ctx.report(rule, key, e[2], 'a retry of this compare-exchange uses an expected value that was '
+                               'refreshed by the failed attempt and is not tested against %s again, although the first '
+                               'attempt was: the retry can overwrite that sentinel (the word then holds a list nobody '
+                               'walks / a waiter nobody releases)' % ', '.join(sorted(missing)),
+                               'function: ' + f.full[:300])
+                    done = True
+                    break
+            if done:
+                break
+    return n
+
+
+# ------------------------------------------------------------------------------------------------ relaxed decisions
+
+class _DecisionWalker(pathwalk.Walker):
+    loop_bound = 1
+    max_paths = 20000
+
+    def on_node(self, fn, n, st):
+        if n['k'] != 'CXXMemberCallExpr':
+            return
+        cn = n.get('cn', '')
+        last = cn.split('::')[-1]
+        if cn == 'yaclib::detail::AtomicCounter::Get':
+            args = n.get('args', [])
+            o = atomics.order_of(fn, args[0]) if args else 0
+            st.events.append(('get', n['i'], o, fn.loc(n), st.depth))
+        elif last in ('SubEqual', 'Sub') and 'Counter' in cn or last in ('fetch_sub', 'fetch_add', 'exchange') or \
+                last.startswith('compare_exchange'):
+            st.events.append(('rmw', fn.loc(n)))
+
+    def on_edge(self, fn, ci, taken, st):
+        for d in fn.deep_descendants(ci):
+            m = fn.nodes[d]
+            if m['k'] == 'CXXMemberCallExpr' and m.get('cn') == 'yaclib::detail::AtomicCounter::Get':
+                st.events.append(('decide', m['i'], taken, st.depth))
+
+
+def check_relaxed_decisions(ctx, fb, r_order, scope=None):
+    """a RELAXED AtomicCounter::Get() may steer a branch only if every path that follows that branch performs an
+    acquiring read-modify-write afterwards (the read was a hint: `Get() == x || SubEqual(x)` where Get is false);
+    a path that acts on the relaxed value alone (returns, reads results) has no happens-before edge from the
+    producers' release decrements"""
+    n = 0
+    for f in sorted(fb.fn.values(), key=lambda f: f.full):
+        if f.cfg is None or not f.qn.startswith('yaclib::') or (scope is not None and not scope(f)):
+            continue
+        if not any(x.get('cn') == 'yaclib::detail::AtomicCounter::Get' for x in f.own_nodes()):
+            continue
+        try:
+            res = _DecisionWalker(fb).run(f)
+        except pathwalk.TooManyPaths:
+            continue
+        key = 'count role=decision via %s' % f.qn
+        n += 1
+        ctx.instance(r_order, key, dict(caller=f.full[:160], paths=len(res)))
+        rep = False
+        for st, _ in res:
+            ev = st.events
+            for i, e in enumerate(ev):
+                if e[0] != 'decide':
+                    continue
+                g = [x for x in ev[:i] if x[0] == 'get' and x[1] == e[1] and x[4] == e[3]]
+                if not g:
+                    continue
+                o = g[-1][2]
+                if isinstance(o, tuple) or atomics.at_least(o, 'acquire'):
+                    continue
+                if not any(x[0] == 'rmw' for x in ev[i + 1:]) and not rep:
+                    rep = True
+                    ctx.report(r_order, 'R-ORDER ' + key, g[-1][3],
+                               'a relaxed counter read decides this branch and nothing acquires afterwards on the path: '
+                               'the conclusion drawn from the count (everybody is done, the results may be read) has '
+                               'no happens-before edge from the producers\' release decrements', 'function: ' +
+                               f.full[:300])
+            if rep:
+                break
     return n
